@@ -551,6 +551,16 @@ def check(run):
                     theorem="C16_resave_user_only")
         sc.save(a2, 1, "mallory", "other fit", expect="ValueError",
                 label="different-fit")
+        # different fits of the stored curve whose fit columns share no
+        # finite sample with the stored one: other segment, failed fit
+        a3 = fit_curve(load_curves(single)[0], model_key="hertz_para",
+                       segment=1)
+        sc.save(a3, 2, "mallory", "retract fit", expect="ValueError",
+                label="different-fit-other-segment")
+        a4 = fit_curve(load_curves(single)[0], model_key="hertz_para",
+                       range_type="relative cp", range_x=[1e-3, 2e-3])
+        sc.save(a4, 0, "mallory", "failed fit", expect="ValueError",
+                label="different-fit-all-nan")
         sc.save(m1, 8, "bob", "x", expect=None, label="new-other-enum")
         sc.save(m1, 8, "bob", "x", expect=None, label="identical-again")
         # --- a failure before every write call of a save
